@@ -43,8 +43,8 @@ def sig_model_check(chk, tier):
 
 
 def sig_generate(chk, tier):
-    num = 160 if tier == "quick" else 2500
-    depth = 12 if tier == "quick" else 16
+    num = 160 if tier == "quick" else 4000
+    depth = 12 if tier == "quick" else 18
     cfg = os.path.join(chk.work, "SignalGen_%s.cfg" % tier)
     with open(cfg, "w") as f:
         f.write('CONSTANTS\n  Sigs = {"HUP", "INT", "SEGV", "TERM", "CHLD"}\n  Hids = {1, 2}\n  Threads = {0, 1}\n  MaxRaise = 0\n'
@@ -257,6 +257,25 @@ def sig_part(chk, tier, bindirs):
             handler_runs += ent
             if ent or "status" in e:
                 nontrivial += 1
+    # measured variety: which (signal, kind) pairs had a handler run / were discarded / terminated a copy, and how many handler
+    # runs happened on a thread other than the one that installed the disposition (process-wide effect)
+    pairs, cross = set(), 0
+    for n, (profile, p, evs) in meta.items():
+        cur = {}
+        byi = {e["i"]: e for e in evs}
+        for i_, o in enumerate(p["ops"]):
+            e = byi.get(i_)
+            if e is None or e["op"] == "died":
+                break
+            if o["op"] == "install":
+                cur[o["sig"]] = (o["k"], o["thr"])
+            elif o["op"] in ("raise", "raise_nested", "raise_async"):
+                k, by = cur.get(o["sig"], ("dfl", 0))
+                ran = [r for r in e.get("log", []) if r["ev"] == "enter" and r["signo"] == SIGNO[o["sig"]]]
+                pairs.add((o["sig"], k, "run" if ran else "fork" if "status" in e else "quiet"))
+                cross += sum(1 for r in ran if r["t"] != by)
+    chk.extra["signal_pairs_exercised"] = sorted("%s/%s/%s" % x for x in pairs)
+    chk.extra["signal_handler_runs_on_a_thread_other_than_the_installer"] = cross
     chk.traces += len(runs)
     chk.evaluations += sum(len(evs) for _, _, evs in runs)
     chk.nontrivial += nontrivial
@@ -317,7 +336,9 @@ def gp_realise(scn):
             elif out == "full":
                 typed = b"abcdefgh"
             else:
-                typed = TYPED_SHORT
+                # the forced read does not wait for input: nothing is typed (typing after the function is done would be
+                # echoed by the restored terminal, which is as it should be)
+                typed = None
                 faulted = True
                 rules.append("win=getpass,nr=read,k=1,ret=%d" % {"zero": 0, "eio": -5, "eintr": -4}[out])
         elif step == "drain":
@@ -360,21 +381,29 @@ def gp_run_one(chk, binp, scn, n):
         for r in rules:
             cmd += ["-r", r]
         cmd += ["--", binp, "getpass", "0" if scn["empty"] else str(BUFLEN)]
-        p = subprocess.Popen(cmd, stdin=s, stdout=subprocess.PIPE, stderr=subprocess.PIPE)
+        p = subprocess.Popen(cmd, stdin=s, stdout=subprocess.PIPE, stderr=subprocess.PIPE, bufsize=0)   # unbuffered: select() sees what readline() has not taken
         during = None
-        t0 = time.time()
-        ready = False
+        # the child prints {"ready":true} right before it calls get_pass (robust under load: only the two ptraced ioctls
+        # of the function lie between that line and the read)
+        first = b""
+        if select.select([p.stdout], [], [], 15.0)[0]:
+            first = p.stdout.readline()
+        if b"ready" not in first:
+            p.kill()
+            raise core.ToolError("getpass child did not start: %r %s" % (first, p.stderr.read()[-500:]))
+        answered = False
         if typed is not None:
             # wait until the function has switched echo off (or has already answered)
-            while time.time() - t0 < 0.4:
+            t0 = time.time()
+            while time.time() - t0 < 1.0:
                 lnow = termios.tcgetattr(m)[3]
                 if not (lnow & termios.ECHO) and (lnow & termios.ECHONL):
                     during = lnow
                     break
                 if select.select([p.stdout], [], [], 0.0005)[0]:
-                    ready = True
+                    answered = True
                     break
-            if not ready:
+            if not answered:
                 if during is None:
                     during = termios.tcgetattr(m)[3]
                 os.write(m, typed)
@@ -659,11 +688,23 @@ def run(tier):
 def replay(path):
     rp = json.load(open(path))["replay"]
     chk = core.Check("X03", "quick", "model_checking")
-    bindir = core.cargo_build(bins=["sigops"], release=rp.get("profile") == "release")
+    bindir = core.cargo_build(bins=["sigops"], release=rp.get("profile", "release") == "release")
     if rp.get("part") == "signal":
         by_seq = sig_execute(chk, bindir, [{"seq": 0, "ops": rp["ops"][:rp["upto"] + 1]}], "replay")
         for e in by_seq.get(0, []):
             print("  ", json.dumps(e)[:400])
+    elif rp.get("part") == "getpass":
+        from checks import sysinj_common as SJ
+        SJ.build_tracer()
+        ev, info = gp_run_one(chk, os.path.join(bindir, "sigops"), rp["scenario"], 0)
+        for e in ev:
+            print("  ", json.dumps(e))
+        print("  ", json.dumps({k: info[k] for k in ("rules", "syscalls", "lflag_orig", "lflag_during", "lflag_final", "result")}))
+    elif rp.get("part") == "errno":
+        p = core.run_cmd([os.path.join(bindir, "sigops"), "errno"], timeout=60)
+        for line in p.stdout.splitlines():
+            if json.loads(line)["code"] == rp["code"]:
+                print("  ", line)
     return 0
 
 
